@@ -31,8 +31,8 @@ def run_case(c):
     d = c["data"]
     grid = GeoGrid(np.array(d["time"], dtype=float), np.array(d["lat"], dtype=float),
                    np.array(d["lon"], dtype=float), silence_level=3)
-    cd = ClimateData(np.array(d["obs"], dtype=float), grid, d["cycle"],
-                     anomalies=bool(d["anom"]), silence_level=3)
+    obs, rep = enc.represent(d["obs"], c["case"])
+    cd = ClimateData(obs, grid, d["cycle"], anomalies=bool(d["anom"]), silence_level=3)
     events = [{"op": "construct"}, _observe(cd)]
     for s in c["steps"]:
         if s["op"] == "set_window":
@@ -46,6 +46,7 @@ def run_case(c):
         events.append(_observe(cd))
     rec = dict(c)
     rec["events"] = events
+    rec["repr"] = rep
     return rec
 
 
@@ -69,6 +70,6 @@ def main(ctx):
 
 def replay(ctx, rep):
     rec = rep["record"]
-    case = {k: v for k, v in rec.items() if k != "events"}
+    case = {k: v for k, v in rec.items() if k not in ("events", "repr")}
     recs = ctx.run_cases("props.c13.run_case", [case], jobs=1)
     ctx.validate("Val_C13", "Val_C13", recs, nontrivial=_nontrivial)
